@@ -366,6 +366,15 @@ class ProgGen:
                 self.stats["cross_context_calls"] += 1
             self.stats["scoped_calls"] += 1
             return [f"{ind}R.append({ref}({r.randint(1, 9)}))"]
+        if k < 0.05:
+            # a call whose arguments cannot be bound (TypeError before the callee's body starts), caught by the caller, which
+            # must still be running against its own globals afterwards
+            ref, owner = r.choice(self.fn_refs(fid, ["bump", "boom"]))
+            if owner != fid:
+                self.stats["cross_context_calls"] += 1
+                self.stats["raising_cross_calls"] += 1
+            bad = r.choice(["", "1, 2, 3", "1, 2, 3, 4"])
+            return [f"{ind}try:", f"{ind}    R.append({ref}({bad}))", f"{ind}except TypeError:", f"{ind}    R.append(('badcall', NAME, X))", f"{ind}R.append((NAME, X, len(L)))"]
         if k < 0.45:
             ref, args, raises = self.call_spec(fid, r.choice([0, 1, 1, 2, 2, 3]), True)
             call = f"{ref}({', '.join(args)})"
